@@ -2,7 +2,7 @@
 from .. import lib
 from ..lib import (call_sites, switch_sites, same_value, describe, LockAnalysis, StaleAnalysis, affine, affine_str,
                    expr_str, is_load_of, null_tests)
-from ..ir import const_int
+from ..ir import const_int, EdgePoint
 from ..frontend import AnalysisBroken
 
 META = {
@@ -245,9 +245,18 @@ def rule4_affine(ctx, v):
                 return True
         return False
     nfresh = 0
+    fresh_cases = []
     for val, anchor in lib.ret_cases(g):
-        a = affine(g, val)
-        if any(m.id in a for m in mm):
+        for k in (g.sources(val, through_gep0=False) if isinstance(val, str) else []):
+            a = affine(g, k)
+            if any(m.id in a for m in mm):
+                # the point where the fresh pointer enters the returned value: the phi edge that carries it
+                edges = [EdgePoint(g, b, ph.block.id) for ph in g.order if ph.op == 'phi'
+                         for vv, b in ph.d['incoming'] if vv == k and len(ph.d['incoming']) > 1]
+                for e in (edges or [anchor]):
+                    fresh_cases.append((a, e))
+    for a, anchor in fresh_cases:
+        if True:
             nfresh += 1
             ctx.ob('C12.4', 'alloc: fresh default stack tagged 0 at +8', tagged(a, anchor),
                    'a default-size stack returned from a fresh chunk has size word 0 (= "return me to the stack free '
